@@ -651,10 +651,10 @@ def readonly(ctx, R="R-C16-readonly"):
     ws, _ = eff.writes_to(f, f.params[1])
     bad = [w for w in ws if False in w.flags]
     ctx.check(not bad, R, f, bad[0].stmt if bad else f.node, "apply writes through its input only when in_place is true",
-              "Standardize.apply can modify the caller's array with in_place=False (%s)" % ", ".join(sorted({w.how for w in bad})))
-    ctx.check(len(ws) >= 1, R, f, f.node, "in_place=True is honoured (the data is standardised in place)")
+              "Standardize.apply can modify the caller's array with in_place=False (%s)" % ", ".join(sorted({w.how for w in bad})), robust=True)
+    ctx.check(len(ws) >= 1, R, f, f.node, "in_place=True is honoured (the data is standardised in place)", robust=True)
     acc = prog.own_method(c, "accumulate")
     eff2 = Effects(prog)
     ws, _ = eff2.writes_to(acc, acc.params[1])
     ctx.check(not ws, R, acc, ws[0].stmt if ws else acc.node, "accumulate never writes to the data it is given",
-              "accumulate can modify the caller's array (%s)" % ", ".join(sorted({w.how for w in ws})))
+              "accumulate can modify the caller's array (%s)" % ", ".join(sorted({w.how for w in ws})), robust=True)
